@@ -37,8 +37,21 @@ def path_done():
         pass
 
 
+DECL = {}       # id(op) -> (op, parents the harness declared when it created the operator)
+
+
 def reset_globals():
     Container.next_container_num = 1
+    DECL.clear()
+
+
+def decl_parents(op):
+    """The parents this harness passed to Pipeline.new_operator for op - the harness's own record of the DAG,
+    independent of what the library stored in Node.parents / Node.children."""
+    e = DECL.get(id(op))
+    if e is not None and e[0] is op:
+        return e[1]
+    return op.parents
 
 
 def edge(bits, i, j):
@@ -59,6 +72,7 @@ def mk_pipeline(pid, prio, n_ops, bits, segs_per_op):
     for j in range(n_ops):
         parents = [ops[i] for i in range(j) if edge(bits, i, j)]
         op = p.new_operator(parents if parents else None)
+        DECL[id(op)] = (op, list(parents))
         for kw in segs_per_op[j]:
             op.add_segment(Segment(**kw))
         ops.append(op)
